@@ -36,6 +36,7 @@ type Job struct {
 	Labels   []string `json:"labels,omitempty"` // label of each prefix choice as recorded by the parent execution
 	Cost     int      `json:"cost"`
 	Kinds    []string `json:"kinds,omitempty"` // labels of the deviations taken so far
+	Picks    []string `json:"picks,omitempty"` // labels of the non-default cost-0 choices taken so far (script / configuration choices)
 }
 
 // Result is what one execution reports.
@@ -211,8 +212,10 @@ func expand(cfg Config, job Job, res Result, levels [][]Job) {
 			child.Labels = append(append(make([]string, 0, i+1), labels[:i]...), p.Labels[alt])
 			if p.cost(alt) > 0 {
 				child.Kinds = append(append([]string{}, job.Kinds...), p.Labels[alt])
+				child.Picks = job.Picks
 			} else {
 				child.Kinds = job.Kinds
+				child.Picks = append(append([]string{}, job.Picks...), p.Labels[alt])
 			}
 			levels[c] = append(levels[c], child)
 		}
